@@ -482,6 +482,11 @@ class Gen:
                 if self.rng.random() < 0.06:   # deliberate shape change (also to/from an empty axis)
                     other = self.rng.choice([(shape[0] + 1, shape[1]), (max(shape[0] - 1, 0), shape[1]),
                                              (shape[0], max(shape[1] - 1, 0))])
+                    # a different shape with the same number of sites (transposed, or regrouped)
+                    same_count = [(a, b) for a in range(0, 5) for b in range(0, 5)
+                                  if a * b == shape[0] * shape[1] and (a, b) != tuple(shape)]
+                    if same_count and self.rng.random() < 0.5:
+                        other = self.rng.choice(same_count)
                     g = self.grid_expr(gvars, ivars, other, depth=1)
                 out.append(("move", g))
             elif r < 0.62:
